@@ -7,12 +7,14 @@ ROOT = os.path.dirname(os.path.dirname(os.path.abspath(__file__)))
 # checks may be run from a frozen copy of /verif (selftest/snap.sh) so that work in progress in
 # /verif/harness does not interfere; results are always recorded in /verif/selftest/results.json
 CHECK_ROOT = os.environ.get("CHECK_ROOT", ROOT)
+# ... and against a scratch worktree of /repo (REPO_ROOT) the snapshot's path dependencies point to
+REPO = os.environ.get("REPO_ROOT", "/repo")
 sid = sys.argv[1]
 d = os.path.join(ROOT, "seeded", sid)
 meta = json.load(open(os.path.join(d, "meta.json")))
 props = sys.argv[2:] or meta["breaks"]
-assert subprocess.run(["git", "-C", "/repo", "status", "--porcelain", "--untracked-files=no"], capture_output=True, text=True).stdout.strip() == "", "/repo not clean"
-subprocess.run(["git", "-C", "/repo", "apply", os.path.join(d, "patch.diff")], check=True)
+assert subprocess.run(["git", "-C", REPO, "status", "--porcelain", "--untracked-files=no"], capture_output=True, text=True).stdout.strip() == "", "repo tree not clean"
+subprocess.run(["git", "-C", REPO, "apply", os.path.join(d, "patch.diff")], check=True)
 res = {}
 try:
     for p in props:
@@ -22,7 +24,7 @@ try:
         res[p] = {"exit": r.returncode, "signatures": sigs, "wall_s": round(time.time() - t0, 1), "tail": r.stdout.strip().splitlines()[-1:] }
         print(sid, p, "exit", r.returncode, sigs[:4], flush=True)
 finally:
-    subprocess.run(["git", "-C", "/repo", "checkout", "--", "."], check=True)
+    subprocess.run(["git", "-C", REPO, "checkout", "--", "."], check=True)
 out = os.path.join(ROOT, "selftest", "results.json")
 allr = json.load(open(out)) if os.path.exists(out) else {}
 allr.setdefault(sid, {}).update(res)
